@@ -21,13 +21,15 @@ PROPS = {
         lean_modules=["PalomaModel.Props.C01", "PalomaModel.Props.Consts.Bridge"], gen=["Atomicity.lean", "ConstTable.lean"],
         harness_test="TestBridge", env={"VERIF_PROP": "C01"},
         n_quick=120, n_thorough=1500, thorough_seeds=8, timeout_quick=900,
-        spec_ops=[],
+        spec_ops=["bind", "sentunder", "paidin"],
         rule="per case: fresh skyway keeper fixture (5 validators, 3 users, 2 bridged tokens); 40 ops drawn from send / cancel / direct batch build / "
              "fully-voted executed-batch and deposit claims / gas-estimate submissions / tax+limit governance / end-blocks (every-50th-height builds, tally, "
              "estimate election, 10-minute timeouts); 22% of ops carry a fault (the n-th call, n in 1..3, of one collaborator class: chain-info, relayer pick, "
-             "remote-address lookup, bank lock/send/pool/mint/burn) injected through the verif hook; distinct = distinct op text of the case; non-trivial = at least one accepted op",
+             "remote-address lookup, bank lock/send/pool/mint/burn) injected through the verif hook; plus 1+N/4 directed histories in which denoms move between "
+             "token contracts (governance / token admin msg / wasm binding) while transfers are pending; distinct = distinct op text of the case; non-trivial = at least one accepted op",
         trusted_base=[SDK_TRUST, "claims are modelled as fully voted (quorum is C02's subject); IBC forwarding is not on the pinned deposit path"],
-        assumptions=["every message runs on a cached store committed only on success (baseapp per-message atomicity, reproduced by the harness)"],
+        assumptions=["every message runs on a cached store committed only on success (baseapp per-message atomicity, reproduced by the harness)",
+                     "governance does not bind a denom to a contract that serves another denom (SaneRun)"],
     ),
     "C15": dict(
         lean_modules=["PalomaModel.Props.C15", "PalomaModel.Props.Consts.Bridge", "PalomaModel.Props.Translated.C15"], gen=["ConstTable.lean", "Translated.lean"],
